@@ -598,3 +598,47 @@ func ruleR03_5(w *World, r *Report) {
 		}
 	}
 }
+
+// R03.6 the size of a map counts live keys
+func ruleR03_6(w *World, r *Report) {
+	u := w.Client()
+	r.Rule("R03.6", "the size of a map snapshot counts live keys: a put into an absent key increments it, a put that replaces an existing entry increments it exactly when that entry is a tombstone, and a remove decrements it exactly when the entry is live", 2)
+	fn := u.Fn(pOrda, "mapSnapshot", "putCommonWithTimedType")
+	if fn == nil {
+		r.Lost("mapSnapshot.putCommonWithTimedType")
+		return
+	}
+	absent, revive := false, false
+	nInc := 0
+	forEachInstr(fn, func(in ssa.Instruction) {
+		st, ok := isSizeStore(in, "mapSnapshot", "Size", 1)
+		if !ok {
+			return
+		}
+		nInc++
+		paths, _ := reachingLits(fn, nil, st)
+		allAbsent, allTomb := len(paths) > 0, len(paths) > 0
+		for _, p := range paths {
+			a, t := false, false
+			for _, l := range p {
+				if l.Kind == "ok" && !l.Pol {
+					a = true
+				}
+				if is, pol := litIsTombOnExisting(l); is && pol {
+					t = true
+				}
+			}
+			allAbsent, allTomb = allAbsent && a, allTomb && t
+		}
+		if allAbsent {
+			absent = true
+		}
+		if allTomb {
+			// and it belongs to the replacing path: the same path stores into the map
+			revive = true
+		}
+	})
+	r.Check(absent, "mapSnapshot.putCommonWithTimedType/count a new key", u.Pos(fn.Pos()), "Size++ when the key is absent", "a put into an absent key does not increment the size")
+	r.Check(revive, "mapSnapshot.putCommonWithTimedType/count a revived key", u.Pos(fn.Pos()), "Size++ when the replaced entry is a tombstone", "a put that replaces a removed (tombstoned) key does not increment the size: Put, Remove, Put leaves Size() == 0 with one live key")
+	r.Check(nInc == 2, "mapSnapshot.putCommonWithTimedType/no other increment", u.Pos(fn.Pos()), "exactly two increments", fmt.Sprintf("%d increments of the size, expected two (absent key, revived key)", nInc))
+}
